@@ -39,6 +39,9 @@ func (r *Run) ledgerEra(i int) (allow, require uint64) {
 }
 
 func runLedger(r *Run, prop string) {
+	if prop == "C09" {
+		c09Copies(r)
+	}
 	nchains := r.pick(40, 600)
 	for ci := 0; ci < nchains; ci++ {
 		n := r.ledgerNet()
@@ -64,6 +67,9 @@ func runLedger(r *Run, prop string) {
 				if len(v.name) >= 4 && v.name[:4] == focus || r.rng.IntN(r.pick(25, 8)) == 0 {
 					c.runVariant(v)
 				}
+			}
+			if prop == "C09" && step%3 == 0 {
+				c.concurrent(b, bs, 2+r.rng.IntN(7))
 			}
 			if err := c.process(b, bs, true, "honest"); err != nil {
 				r.violate("ledger.honest-rejected", "an honestly built block was rejected at child height %d: %v (chain %v)", c.child(), err, c.desc)
